@@ -114,7 +114,7 @@ def parsePar (toks : List String) : Option (List Job × List Job) :=
       match (t.drop 1).toString.splitOn "=" with
       | [sl, id] => do
         let s ← parseSlot sl; let id ← id.toNat?
-        pure (rs, gs ++ [Job.registrar s (.instance id) false])
+        pure (rs, gs ++ [Job.registrar s (.inst id) false])
       | _ => none
     else do
       let s ← parseSlot t
